@@ -105,10 +105,10 @@ def confirm(cand, name):
     return True
 
 
-def run(name, tier):
+def run(name, tier, pid_override=None):
     d = os.path.join(V, "seeded", name)
     meta = json.load(open(os.path.join(d, "meta.json")))
-    pid = meta["property"]
+    pid = pid_override or meta["property"]
     wt = worktree(name)
     try:
         rc, out = sh(["git", "apply", os.path.join(d, "patch.diff")], cwd=wt)
@@ -125,7 +125,7 @@ def run(name, tier):
         # keep the history of runs per tier
         rp = os.path.join(d, "result.json")
         allres = json.load(open(rp)) if os.path.exists(rp) else {}
-        allres[tier] = res
+        allres[tier if not pid_override else "%s-by-%s" % (tier, pid)] = res
         json.dump(allres, open(rp, "w"), indent=1)
         print("%-28s %s %-8s exit=%d %s  %.0fs %s" % (name, pid, tier, rc, "DETECTED" if rc == 1 else ("MISSED" if rc == 0 else "INFRA"), res["wall_s"], (first[0][:160] if first else "")))
         if rc == 2:
@@ -141,12 +141,13 @@ def main():
         sys.exit(0 if confirm(a[1], a[2]) else 1)
     if a[0] == "run":
         tier = a[2] if len(a) > 2 else "quick"
+        override = a[3] if len(a) > 3 else None
         names = sorted(os.listdir(os.path.join(V, "seeded"))) if a[1] == "all" else [a[1]]
         bad = 0
         for n in names:
             if not os.path.exists(os.path.join(V, "seeded", n, "meta.json")):
                 continue
-            if run(n, tier) is False:
+            if run(n, tier, override) is False:
                 bad += 1
         sys.exit(1 if bad else 0)
 
